@@ -90,3 +90,53 @@ def assume_from(facts):
     def assume(node):
         return eval_test(node.ast, facts)
     return assume
+
+
+def eval_simple_function(prog, fi, facts, depth=0):
+    """Abstractly run a small classifier function (if/elif/else with returns, conditional expressions)
+    under `facts` about the dotted names it tests.  -> set of possible constant return values
+    ('?' when a returned expression is not constant, None for falling off the end)."""
+    import ast as _ast
+    from .core import unparse
+    out = set()
+
+    def ret_values(e):
+        if isinstance(e, _ast.IfExp):
+            t = eval_test(e.test, facts)
+            if t is True:
+                return ret_values(e.body)
+            if t is False:
+                return ret_values(e.orelse)
+            return ret_values(e.body) | ret_values(e.orelse)
+        v = prog.try_fold(e, fi.module, default="?")
+        return {v}
+
+    def run(stmts):
+        """returns True if control can fall through"""
+        for s in stmts:
+            if isinstance(s, _ast.Return):
+                out.update(ret_values(s.value) if s.value is not None else {None})
+                return False
+            if isinstance(s, _ast.If):
+                t = eval_test(s.test, facts)
+                if t is True:
+                    if not run(s.body):
+                        return False
+                elif t is False:
+                    if not run(s.orelse):
+                        return False
+                else:
+                    a = run(list(s.body))
+                    b = run(list(s.orelse))
+                    if not a and not b:
+                        return False
+            elif isinstance(s, (_ast.Expr, _ast.Pass, _ast.Assign)):
+                continue
+            elif isinstance(s, _ast.Raise):
+                return False
+            else:
+                out.add("?")
+        return True
+    if run(fi.node.body):
+        out.add(None)
+    return out
